@@ -58,11 +58,17 @@ def finding_class(src):
 def _work(item):
     common.import_repo()
     kind, payload = item
-    if kind == "graph":
-        o = srcpipe.analyse_graph(payload)
-    else:
-        o = srcpipe.analyse(payload)
-        o["stream"] = kind
+    try:
+        if kind == "graph":
+            o = srcpipe.analyse_graph(payload)
+        else:
+            o = srcpipe.analyse(payload)
+            o["stream"] = kind
+    except BaseException as e:  # a failure of the harness itself: reported by every check that reads the run
+        o = {"harness_error": "%s: %s" % (type(e).__name__, str(e)[:200]), "texts": [],
+             ("graph" if kind == "graph" else "src"): payload, "front": "ok", "pipeline": None}
+        if kind != "graph":
+            o["stream"] = kind
     res = subprocess.run([VCHK], input="".join(o["texts"]), capture_output=True, text=True)
     o["vchk"] = res.stdout.splitlines()
     o.pop("texts", None)
